@@ -4,10 +4,13 @@ from concurrent.futures import ThreadPoolExecutor
 from harness import core, tlaval
 from harness import call_gen as G
 
+# short TLC runs: the C1 compiler only and few GC threads (less CPU spent on JVM start-up)
+LIGHT_JVM = {"JAVA_TOOL_OPTIONS": "-XX:TieredStopAtLevel=1 -XX:ParallelGCThreads=2"}
+
 
 def run_gen(maxn, widen):
     cfg = "SPECIFICATION Spec\nCONSTANTS Base = 4\n  MaxN = %d\n  WideN = %d\nCHECK_DEADLOCK FALSE\n" % (maxn, widen)
-    return core.tlc("CallGen", cfg_text=cfg, workers=2, timeout=900), maxn, widen
+    return core.tlc("CallGen", cfg_text=cfg, workers=2, timeout=900, env=LIGHT_JVM if maxn < 3 else None), maxn, widen
 
 
 def parse_space(ctx, r, maxn, widen, name="CallGen"):
@@ -107,7 +110,7 @@ def validate(ctx, records, chunk=1500, parallel=4, name="Trace_Call", module="Tr
     def one(i):
         path = os.path.join(ctx.tmp, "%s_%d_%d.json" % (name, base, i))
         core.write_json(path, chunks[i])
-        results[i] = core.tlc(module, workers=1, env={"TRACE_FILE": path}, timeout=1500)
+        results[i] = core.tlc(module, workers=1, env=dict(LIGHT_JVM, TRACE_FILE=path), timeout=1500)
     with ThreadPoolExecutor(max_workers=parallel) as ex:
         for f in [ex.submit(one, i) for i in range(len(chunks))]:
             f.result()
